@@ -185,6 +185,22 @@ def run(shard, rec):
                 rec.case([shard['name'], pi, w.sched_sig()], nontrivial=frames > 0,
                          sample={'config': shard['name'], 'steps': [s[0] for s in spec['steps']], 'policy': policy, 'frames': frames,
                                  'labels_first_conn': [f[0] for f in w.frames(0, 1)[0][:4]]} if pi == 0 else None)
+        from vlib import fxprogs
+        for pi in range(max(3, shard['programs'] // 2)):
+            spec = fxprogs.gen(rng, m, l=16, f=8, ops=fxprogs.CHEAP + ['mul_float', 'div_pub', 'mul_float'], n_steps=(3, 7))
+            for policy in rng.sample(sim.POLICIES, 2):
+                sseed = rng.randrange(1 << 30)
+                case = [shard['name'], 'fxp', pi, policy, sseed]
+                if not rec.wants(case):
+                    continue
+                w = sim.World(m, t, no_prss, seed=sseed, policy=policy).run(fxprogs.build(spec))
+                rec.count('runs')
+                feats = {'asymmetric_yield': False, 'deferred_bump': bool(w.deferred_bumps)}
+                n, frames, done = check_world(w, rec, f'{shard["name"]} fxp program {pi} {[s[0] for s in spec["steps"]]} policy {policy}', {'case': case, 'fxspec': spec, 'policy': policy}, feats)
+                rec.count('runs_completed' if done else 'runs_not_completed')
+                if not done:
+                    rec.note_side(f'{shard["name"]} fxp program {pi}: {w.status} {w.error_summaries()[:1]}')
+                rec.case([shard['name'], 'fxp', pi, w.sched_sig()], nontrivial=frames > 0)
         return
     micro = micro_programs()
     for name, prog in micro.items():
